@@ -172,7 +172,7 @@ fn run_in(case: &C18Case, nu: &mut Nu) -> Result<CaseInfo, Fail> {
                 i += 1;
                 let mut k = 0;
                 while i < mine.len() && mine[i].topic == "g.recv" {
-                    let h = mine[i].hash.clone().ok_or_else(|| gen_fail("g.recv without content".into()))?;
+                    let h = mine[i].hash.clone().ok_or_else(|| Fail::new(Class::Cas, "g.recv without content: the produced string is not there to be read".to_string()))?;
                     let c = nu.content(&h)?;
                     checks += 1;
                     if want.get(k).map(|s| s.as_bytes()) != Some(&c[..]) {
@@ -287,7 +287,7 @@ fn run_in(case: &C18Case, nu: &mut Nu) -> Result<CaseInfo, Fail> {
                     mine.iter().map(|w| (&w.topic, &w.meta)).collect::<Vec<_>>()
                 )));
             }
-            let h = mine[1].hash.clone().ok_or_else(|| gen_fail("g.recv without content".into()))?;
+            let h = mine[1].hash.clone().ok_or_else(|| Fail::new(Class::Cas, "g.recv without content: the produced string is not there to be read".to_string()))?;
             if nu.content(&h)? != b"after" {
                 return Err(Fail::new(Class::Cas, "g.recv content differs from the produced string".to_string()));
             }
